@@ -167,6 +167,16 @@ def run(case):
     tg = g.to_text()
     gb = parse(tg, "generic")
     same(gb, "generic")
+    # ... under the generated style as well (the chunk options apply to its hex body) and through
+    # the legacy chunk keywords
+    tg_styled = g.to_styled_text(_style(case, origin, relativize))
+    same(parse(tg_styled, "generic styled"), "generic styled")
+    st1 = case.get("style") or {}
+    if "hex_chunk_size" in st1:
+        tg_kw = g.to_text(chunksize=st1["hex_chunk_size"])
+        same(parse(tg_kw, "generic chunksize="), "generic chunksize=")
+        if st1["hex_chunk_size"] % 2 == 1 and len(tg_styled.split()) > 3:
+            classes.append("generic-odd-chunks")
     # 2b. relativization target different from the origin (what a zone reader passes after $ORIGIN):
     # ordinary and generic text must give the same record, with exactly the names at/below the
     # target held relative
@@ -204,7 +214,7 @@ def run(case):
     same(mb, "mnemonic")
     nontrivial = ("\\" in t_plain) or ('"' in t_plain) or rel_printed
     st_ = case.get("style") or {}
-    if st_.get("base64_chunk_size") in (1, 4) or st_.get("hex_chunk_size") == 2:
+    if st_.get("base64_chunk_size") in (1, 3, 4, 5) or st_.get("hex_chunk_size") in (1, 2, 3, 7):
         if len(t_styled.split()) > len(t_plain.split()):
             nontrivial = True
             classes.append("multi-chunk")
@@ -231,9 +241,9 @@ def cases(draw, types):
     case["prelude_class"] = draw(st.sampled_from([None, None, None, None, 3, 4, 0xFE00]))
     style = {}
     if draw(st.booleans()):
-        style["base64_chunk_size"] = draw(st.sampled_from([0, 1, 4, 32, 57]))
+        style["base64_chunk_size"] = draw(st.sampled_from([0, 1, 3, 4, 5, 32, 57]))
     if draw(st.booleans()):
-        style["hex_chunk_size"] = draw(st.sampled_from([0, 2, 128]))
+        style["hex_chunk_size"] = draw(st.sampled_from([0, 1, 2, 3, 7, 21, 128]))
     if draw(st.integers(0, 3)) == 0:
         style["txt_is_utf8"] = True
     if draw(st.integers(0, 5)) == 0:
@@ -611,7 +621,7 @@ def run_fieldlimit(case):
 def parts(tier):
     per_type = {"quick": 30, "thorough": 300}[tier]
     req = {("acc:" + t): per_type for t in TEXT_TYPES}
-    req.update({"other-class-first": 1000, "legacy-keywords": 2000, "relativize_to:parent": 300, "relativize_to:root": 100, "relative-name-printed": 200, "derelativized": 200, "escape": 500, "multi-chunk": 100, "text-lossy": 50})
+    req.update({"other-class-first": 1000, "legacy-keywords": 2000, "relativize_to:parent": 300, "relativize_to:root": 100, "relative-name-printed": 200, "derelativized": 200, "escape": 500, "multi-chunk": 100, "generic-odd-chunks": 1500, "text-lossy": 50})
     n_types = len(TEXT_TYPES)
     return [
         Part("text", run, strategy=cases(TEXT_TYPES), n={"quick": 400 * n_types, "thorough": 5000 * n_types},
